@@ -100,6 +100,10 @@ class BaseTorchFlow(Flow):
                 strict=False,
             )
             config["data_transform"] = data_transform
+        # Extra flow options are captured under "kwargs"; re-splat them as
+        # the JAX wrapper does
+        kwargs = config.pop("kwargs", None) or {}
+        config.update(kwargs)
         obj = self(**config)
         # Load weights
         weights = {
